@@ -524,12 +524,16 @@ def build_control(reg, common, RECV_PRE, DATA_MOD):
         ensures=INV + [
             MONO, "self.control_frame_data is None",
             # ping: answered by a pong with the same payload while OPEN
-            "implies(%s.opcode == 9 and self.state == 3, ghost.frames_sent == old(ghost.frames_sent) + 1 and "
-            "ghost.last_frame_opcode == 10 and ghost.last_frame_payload == old(join(self.control_frame_data)))" % CF,
+            "implies(%s.opcode == 9 and self.state == 3 and not old(self.failedByMe), ghost.frames_sent == old(ghost.frames_sent) + 1 "
+            "and ghost.last_frame_opcode == 10 and ghost.last_frame_payload == old(join(self.control_frame_data)))" % CF,
+            # once this side has failed the connection neither pings nor pongs are handed to the application any more
+            "implies(old(self.failedByMe) and %s.opcode != 8, ghost.frames_sent == old(ghost.frames_sent) and "
+            "len(ghost.pongs_received) == old(len(ghost.pongs_received)))" % CF,
             "implies(%s.opcode == 9, self.state == old(self.state) and self.failedByMe == old(self.failedByMe) and "
             "ghost.close_frames == old(ghost.close_frames))" % CF,
             # pong: delivered; the matching auto-ping timeout is cancelled and the next ping scheduled
-            "implies(%s.opcode == 10, len(ghost.pongs_received) == old(len(ghost.pongs_received)) + 1 and "
+            "implies(%s.opcode == 10, len(ghost.pongs_received) == old(len(ghost.pongs_received)) + "
+            "(0 if old(self.failedByMe) else 1) and "
             "self.state == old(self.state) and self.failedByMe == old(self.failedByMe) and "
             "ghost.frames_sent == old(ghost.frames_sent))" % CF,
             "implies(%s.opcode == 10 and old(self.autoPingPending) is not None and "
@@ -611,8 +615,7 @@ def build_process_data(reg, common, RECV_PRE, DATA_MOD):
     reg.contract(
         WSP + ".processData", name=WSP + ".processData[header]", props=["C02", "C16", "C01"], params=dict(S), returns="bool",
         requires=RECV_PRE + ["self.current_frame is None", "self.state == 3 and not self.failedByMe",
-                             "implies(self.inside_message, self.message_data is not None)",
-                             "self._perMessageCompress is None"],
+                             "implies(self.inside_message, self.message_data is not None)"],
         modifies=PD_MOD,
         ensures=INV + [
             MONO,
